@@ -16,4 +16,5 @@ for p in $props; do
   echo "$out" | head -8
 done
 git -C /repo checkout -- . ; git -C /repo clean -fdq -e verifhook 2>/dev/null
-git -C /repo status --short | head -3
+git -C /repo status --short | head -3; /verif/tools/regen.sh >/dev/null
+tools/regen.sh
